@@ -195,13 +195,196 @@ def check_c20(ck, tier, replay=None):
         r, _ = explore(mod, models.all_models(), lambda it: it.call('@h_csgunit', [k]), parsed=parsed)
         got = symx.sgn64(r[0][1]) & 0xffffffff
         ck.obligation('CsgUnits[%d] is %s::%s' % (k, ty, nm), 'unsat' if got == enums[ty].index(nm) else 'sat', 0.0, True)
+    check_elements(ck, TO)
     ck.assumptions += ['enum arguments range over the declared enumerators (out-of-range casts are outside the claim)', 'reference values: CODATA 2018 / SI exact constants embedded in props/C20.py; calorie: thermochemical 4.184 J for UnitConverter, either thermochemical or International-Table accepted for the stand-alone constant, but all places must agree with each other',
-                       'the double literals are taken as their exact rational values; products/quotients in exact real arithmetic; derived (constexpr-folded) tables compared to 2^-50 relative', 'Elements tables (string-keyed maps) are outside the claim']
+                       'the double literals are taken as their exact rational values; products/quotients in exact real arithmetic; derived (constexpr-folded) tables compared to 2^-50 relative']
     if CASE_SPLIT: ck.notes.append('convert overloads %s are not table-shaped any more: enum arguments case-split per ordered pair' % sorted(CASE_SPLIT))
     ck.bounds.update({'enum pairs/triples': 'all (symbolic enum arguments, one query per clause and dimension)', 'tolerance': '1e-4 relative (four significant digits)'})
     for o in ck.obl:
         if o['status'] == 'sat' and not any(o['name'] in v['what'] or True for v in ck.viol + [{'what': w} for _, w in ck.known_hit]):
             ck.violation('C20 ' + o['name'][:60], o['name'], None)
+
+# ---------------- element data (Elements tables behind the public getters) ----------------
+ELEM_HARNESS = 'C20_elem.cc'
+PERIODIC = ['H','He','Li','Be','B','C','N','O','F','Ne','Na','Mg','Al','Si','P','S','Cl','Ar','K','Ca','Sc','Ti','V','Cr','Mn','Fe','Co','Ni','Cu','Zn','Ga','Ge','As','Se','Br','Kr','Rb','Sr','Y','Zr','Nb','Mo','Tc','Ru','Rh','Pd','Ag','Cd','In','Sn','Sb','Te','I','Xe','Cs','Ba',
+            'La','Ce','Pr','Nd','Pm','Sm','Eu','Gd','Tb','Dy','Ho','Er','Tm','Yb','Lu','Hf','Ta','W','Re','Os','Ir','Pt','Au','Hg','Tl','Pb','Bi','Po','At','Rn','Fr','Ra','Ac','Th','Pa','U','Np','Pu','Am','Cm','Bk','Cf','Es','Fm','Md','No','Lr','Rf','Db','Sg','Bh','Hs','Mt','Ds','Rg','Cn','Nh','Fl','Mc','Lv','Ts','Og']
+# standard atomic weights (IUPAC abridged; mass number of the longest-lived isotope for Tc, Pm, Po, At, Rn)
+WEIGHT = {'H':'1.008','He':'4.0026','Li':'6.94','Be':'9.0122','B':'10.81','C':'12.011','N':'14.007','O':'15.999','F':'18.998','Ne':'20.180','Na':'22.990','Mg':'24.305','Al':'26.982','Si':'28.085','P':'30.974','S':'32.06','Cl':'35.45','Ar':'39.948','K':'39.098','Ca':'40.078','Sc':'44.956','Ti':'47.867','V':'50.942','Cr':'51.996','Mn':'54.938','Fe':'55.845','Co':'58.933','Ni':'58.693','Cu':'63.546','Zn':'65.38','Ga':'69.723','Ge':'72.630','As':'74.922','Se':'78.971','Br':'79.904','Kr':'83.798','Rb':'85.468','Sr':'87.62','Y':'88.906','Zr':'91.224','Nb':'92.906','Mo':'95.95','Tc':'98','Ru':'101.07','Rh':'102.91','Pd':'106.42','Ag':'107.87','Cd':'112.41','In':'114.82','Sn':'118.71','Sb':'121.76','Te':'127.60','I':'126.90','Xe':'131.29','Cs':'132.91','Ba':'137.33',
+          'La':'138.91','Ce':'140.12','Pr':'140.91','Nd':'144.24','Pm':'145','Sm':'150.36','Eu':'151.96','Gd':'157.25','Tb':'158.93','Dy':'162.50','Ho':'164.93','Er':'167.26','Tm':'168.93','Yb':'173.05','Lu':'174.97','Hf':'178.49','Ta':'180.95','W':'183.84','Re':'186.21','Os':'190.23','Ir':'192.22','Pt':'195.08','Au':'196.97','Hg':'200.59','Tl':'204.38','Pb':'207.2','Bi':'208.98','Po':'209','At':'210','Rn':'222'}
+MASS_TOL = F(5, 10**4)
+
+def elem_native():
+    return common.native_build([common.harness_path(ELEM_HARNESS)], 'C20_elem_native', extra=['-I' + common.REPO], defs=['VERIF_NATIVE'], cxx=common.CLANG)
+
+def elem_violation(ck, clause, sym, what, meta):
+    meta = dict(meta); meta.update({'kind': 'element', 'clause': clause, 'symbol': sym})
+    rep = common.write_replay('C20', 'element %s %s' % (clause, sym), {}, meta)
+    ck.violation('C20 element %s %s' % (clause, sym), what, rep, reproduced=replay_element(meta))
+
+def replay_element(meta):
+    binp = elem_native()
+    def q(cmd, key):
+        rc, so, se = common.run_native(binp, '%s %s\n' % (cmd, key)); return so.split()[0] if so.split() else '?'
+    c = meta['clause']
+    if c == 'number->symbol->number':
+        nm = q('elename', meta['Z']); return nm == '?' or int(q('elenum', nm)) != int(meta['Z']) or int(q('nuccrg', nm)) != int(meta['Z'])
+    if c == 'symbol->number->symbol':
+        n = int(q('elenum', meta['symbol'])); return q('elename', n) != meta['symbol']
+    if c == 'nuclear charge':
+        return int(q('nuccrg', meta['symbol'])) != int(q('elenum', meta['symbol']))
+    if c == 'atomic number':
+        return int(q('elenum', meta['symbol'])) != int(meta['ref'])
+    if c == 'symbol->full name->symbol':
+        return q('eleshort', q('elefull', meta['key'])) != meta['key']
+    if c == 'full name->symbol->full name':
+        return q('elefull', q('eleshort', meta['key'])) != meta['key']
+    if c == 'mass':
+        m = float.fromhex(q('mass', meta['symbol'])); ref = float(meta['ref']); return m < 0 or abs(m - ref) > float(MASS_TOL) * ref
+    return True
+
+def check_elements(ck, TO):
+    ir, dt = common.compile_ir(common.harness_path(ELEM_HARNESS), extra=['-I' + common.REPO])
+    mod = llir.parse_module(ir); parsed = {}
+    ck.units += ['tools/src/libtools/elements.cc (Elements::getEleNum/getEleName/getNucCrg/getMass/getEleFull/getEleShort with their Fill* tables, std::map lookups executed from the IR)']
+    ck.functions.update(common.ir_func_sizes(mod, r'^@h_(get|dump)_'))
+    ck.functions.update(common.ir_func_sizes(mod, r'Elements'))
+    from symx import Ptr
+    # --- encoder validation: concrete lookups, interpreter vs native ---
+    binp = elem_native(); probes = ['H', 'He', 'C', 'Ru', 'Rh', 'Ta', 'Rn', 'Xx', 'h']
+    lines = ['elenum %s' % x for x in probes] + ['nuccrg %s' % x for x in probes] + ['mass %s' % x for x in probes] + ['elename %d' % z for z in (0, 1, 17, 44, 45, 73, 86, 87)]
+    rc, so, se = common.run_native(binp, '\n'.join(lines) + '\n'); nat = so.split(); bad = 0
+    for ln, nv in zip(lines, nat):
+        cmd, key = ln.split()
+        def body(it):
+            if cmd == 'elename':
+                out = it.alloc(8, 'out'); n = symx.sgn64(it.call('@h_get_elename', [int(key), out])); return '?' if n < 0 else it.cstr(out).decode()
+            kp = it.alloc(len(key) + 1, 'key')
+            for i, ch in enumerate(key.encode() + b'\0'): it.store(Ptr(kp.obj, i), ch, 1)
+            r = it.call('@h_get_' + cmd, [kp]); return float(r).hex() if cmd == 'mass' else str(symx.sgn64(r))
+        r, _ = explore(mod, models.all_models(), body, fpmode='float', parsed=parsed)
+        got = r[0][1]; want = float.fromhex(nv).hex() if cmd == 'mass' else nv
+        if got != want: bad += 1; print('  validation mismatch', ln, got, want)
+    ck.add_validation('interpreter vs native build: Elements getters on %d concrete keys (hits and misses)' % len(lines), len(lines), bad == 0 and len(nat) == len(lines), '%d mismatches' % bad)
+    # --- A: symbolic atomic number through getEleName, then back through getEleNum / getNucCrg ---
+    Z = z3.Int('Z'); ZLO, ZHI = -2, 130
+    def bodyA(it):
+        it.assume(z3.And(Z >= ZLO, Z <= ZHI))
+        out = it.alloc(8, 'out'); n = it.call('@h_get_elename', [Z, out])
+        if symx.sgn64(n) < 0: return None
+        return (it.cstr(out).decode(), it.call('@h_get_elenum', [out]), it.call('@h_get_nuccrg', [out]))
+    rA, st = explore(mod, models.all_models(), bodyA, parsed=parsed, max_paths=2000, timeout=600); ck.stubs |= st['models_used']
+    hitsA = [(it_, v) for it_, v in rA if v is not None]
+    ck.add_witness('getEleName(Z) explored for symbolic Z in [%d,%d]: %d paths, %d hit an element' % (ZLO, ZHI, len(rA), len(hitsA)), len(hitsA) >= 1 and len(rA) > len(hitsA))
+    jobs = {}; info = {}
+    def I(v): return v if z3.is_expr(v) else z3.IntVal(symx.sgn64(v))
+    for k, (it_, (nm, z2, zc)) in enumerate(hitsA):
+        jobs[('A1', k)] = list(it_.pc) + [z3.Or(I(z2) != Z, I(zc) != Z)]
+        ref = PERIODIC.index(nm) + 1 if nm in PERIODIC else -1
+        jobs[('A2', k)] = list(it_.pc) + [Z != ref]
+        info[k] = nm
+    outA = smt.parallel_check(list(jobs.items()), timeout_s=TO)
+    def group(name, tag, n, out, probe):
+        sts = [out[(tag, k)][0] for k in range(n)]
+        st = 'unsat' if all(x == 'unsat' for x in sts) else ('sat' if 'sat' in sts else 'unknown')
+        nt = smt.check(probe, 15)[0] == 'sat'
+        ck.obligation('%s (%d path queries)' % (name, n), st, sum(out[(tag, k)][1] for k in range(n)), nt)
+        return [k for k in range(n) if sts[k] == 'sat'], [k for k in range(n) if sts[k] not in ('sat', 'unsat')]
+    free = z3.Int('free')
+    badk, unk = group('elements: getEleNum(getEleName(Z)) == Z and getNucCrg(getEleName(Z)) == Z for every Z that names an element', 'A1', len(hitsA), outA, [free != Z])
+    for k in badk:
+        m = outA[('A1', k)][2] or {}; z = int(m.get('Z', 0))
+        elem_violation(ck, 'number->symbol->number', info[k], 'getEleName(%d) = %s but getEleNum/getNucCrg(%s) != %d' % (z, info[k], info[k], z), {'Z': z})
+    badk2, unk2 = group('elements: getEleName(Z) is the symbol of element Z in the periodic table (reference embedded in the checker)', 'A2', len(hitsA), outA, [free != Z])
+    for k in badk2:
+        m = outA[('A2', k)][2] or {}; z = int(m.get('Z', 0))
+        if k not in badk: elem_violation(ck, 'number->symbol->number', info[k], 'getEleName(%d) = %s, which is element %s' % (z, info[k], PERIODIC.index(info[k]) + 1 if info[k] in PERIODIC else '?'), {'Z': z})
+    if unk or unk2: ck.inconc('element queries undecided: %d' % (len(unk) + len(unk2)))
+    # --- B: symbolic symbol (up to 2 characters) through getEleNum, then getEleName / getNucCrg / getMass ---
+    b0, b1 = z3.Ints('b0 b1')
+    def bodyB(it):
+        it.assume(z3.And(b0 >= 0, b0 < 256, b1 >= 0, b1 < 256))
+        key = it.alloc(3, 'key'); it.store(key, b0, 1); it.store(Ptr(key.obj, 1), b1, 1); it.store(Ptr(key.obj, 2), 0, 1)
+        n = it.call('@h_get_elenum', [key])
+        if symx.sgn64(n) < 0: return None
+        out = it.alloc(8, 'out'); m = symx.sgn64(it.call('@h_get_elename', [n, out]))
+        return (symx.sgn64(n), (it.cstr(out) if m >= 0 else None), it.call('@h_get_nuccrg', [key]), it.call('@h_get_mass', [key]))
+    rB, st = explore(mod, models.all_models(), bodyB, parsed=parsed, max_paths=4000, timeout=900); ck.stubs |= st['models_used']
+    hitsB = [(it_, v) for it_, v in rB if v is not None]
+    ck.add_witness('getEleNum(s) explored for every string s of at most 2 symbolic bytes: %d paths, %d hit an element' % (len(rB), len(hitsB)), len(hitsB) >= 1 and len(rB) > len(hitsB))
+    jobs = {}; infoB = {}
+    for k, (it_, (n, nm, zc, mass)) in enumerate(hitsB):
+        # the symbol on this path, read back from the path condition by the solver (the bytes are pinned by the compare results)
+        nmb = (nm or b'') + b'\0\0'
+        jobs[('B1', k)] = list(it_.pc) + [z3.Or(b0 != nmb[0], b1 != nmb[1])] if nm is not None else list(it_.pc)
+        jobs[('B2', k)] = list(it_.pc) + [I(zc) != n]
+        sym = PERIODIC[n - 1] if 1 <= n <= len(PERIODIC) else None
+        refb = (sym.encode() if sym else b'') + b'\0\0'
+        jobs[('B3', k)] = list(it_.pc) + [z3.Or(b0 != refb[0], b1 != refb[1])]
+        mv = mass if z3.is_expr(mass) else z3.RealVal(mass)
+        ref = F(WEIGHT[sym]) if sym in WEIGHT else None
+        jobs[('B4', k)] = list(it_.pc) + ([z3.Not(z3.And(mv - ref <= MASS_TOL * ref, ref - mv <= MASS_TOL * ref))] if ref is not None else [])
+        infoB[k] = (n, nm, sym, mass, ref)
+    outB = smt.parallel_check(list(jobs.items()), timeout_s=TO)
+    def keyof(k, tag):
+        m = outB[(tag, k)][2] or {}; bs = bytes([int(m.get('b0', 0)) & 0xff, int(m.get('b1', 0)) & 0xff]); return bs.split(b'\0')[0].decode('latin1')
+    fb = z3.Int('freeb'); fr = z3.Real('freer')
+    bad1, u1 = group('elements: getEleName(getEleNum(s)) == s for every symbol s that getEleNum knows', 'B1', len(hitsB), outB, [fb != b0])
+    for k in bad1:
+        s_ = keyof(k, 'B1'); elem_violation(ck, 'symbol->number->symbol', s_, 'getEleNum(%s) = %d but getEleName(%d) = %s' % (s_, infoB[k][0], infoB[k][0], (infoB[k][1] or b'<missing>').decode()), {'Z': infoB[k][0]})
+    bad2, u2 = group('elements: getNucCrg(s) == getEleNum(s) for every symbol s', 'B2', len(hitsB), outB, [fb != free])
+    for k in bad2:
+        s_ = keyof(k, 'B2'); elem_violation(ck, 'nuclear charge', s_, 'getNucCrg(%s) != getEleNum(%s) = %d' % (s_, s_, infoB[k][0]), {'Z': infoB[k][0]})
+    bad3, u3 = group('elements: getEleNum(s) is the atomic number of s in the periodic table (reference embedded in the checker)', 'B3', len(hitsB), outB, [fb != b0])
+    for k in bad3:
+        s_ = keyof(k, 'B3')
+        if k not in bad1: elem_violation(ck, 'atomic number', s_, 'getEleNum(%s) = %d; the periodic table has %s' % (s_, infoB[k][0], PERIODIC.index(s_) + 1 if s_ in PERIODIC else 'no such symbol'), {'Z': infoB[k][0], 'ref': PERIODIC.index(s_) + 1 if s_ in PERIODIC else -1})
+    bad4, u4 = group('elements: getMass(s) within 5e-4 of the standard atomic weight of s for every symbol s', 'B4', len(hitsB), outB, [z3.Not(z3.And(fr - 12 <= MASS_TOL * 12, 12 - fr <= MASS_TOL * 12))])
+    for k in bad4:
+        s_ = keyof(k, 'B4'); n, nm, sym, mass, ref = infoB[k]
+        mf = float(mass) if not z3.is_expr(mass) else float('nan')
+        elem_violation(ck, 'mass', s_, 'getMass(%s) = %s but the standard atomic weight of %s (Z=%d) is %s' % (s_, ('no entry' if mf < 0 else repr(mf)), sym, n, WEIGHT.get(sym, '?')), {'Z': n, 'ref': WEIGHT.get(sym, '0'), 'value': mf})
+    if u1 or u2 or u3 or u4: ck.inconc('element queries undecided: %d' % (len(u1) + len(u2) + len(u3) + len(u4)))
+    # every symbol reached through A is reached through B and vice versa (the two tables name the same elements)
+    sa = sorted(v[0] for _, v in hitsA); sb = sorted((v[1] or b'?').decode() for _, v in hitsB)
+    ck.obligation('elements: the symbols reachable through getEleName and through getEleNum are the same set (%d / %d)' % (len(sa), len(sb)), 'unsat' if sa == sb else 'sat', 0.0, True)
+    if sa != sb: elem_violation(ck, 'symbol->number->symbol', ','.join(sorted(set(sa) ^ set(sb)))[:40], 'symbols known to only one of getEleName / getEleNum: %s' % sorted(set(sa) ^ set(sb)), {'Z': 0})
+    # --- C: full names <-> symbols (tables read back through the real map iteration; index symbolic) ---
+    def dump(fn, kw, vw):
+        def body(it):
+            kp = it.alloc(kw * 160, 'k'); vp = it.alloc(vw * 160, 'v'); n = symx.sgn64(it.call('@' + fn, [kp, vp]))
+            return [(it.cstr(Ptr(kp.obj, kw * i))[:kw - 1], it.cstr(Ptr(vp.obj, vw * i))[:vw - 1]) for i in range(n)]
+        r, _ = explore(mod, models.all_models(), body, parsed=parsed); return r[0][1]
+    full = dump('h_dump_elefull', 8, 16); short = dump('h_dump_eleshort', 16, 8)
+    def enc(bs): return int.from_bytes(bs[:15], 'big')
+    i = z3.Int('i')
+    def table(idx, vals, default=-1):
+        e = z3.IntVal(default)
+        for k in range(len(vals) - 1, -1, -1): e = z3.If(idx == k, z3.IntVal(vals[k]), e)
+        return e
+    def lookup(keyexpr, tab):      # map lookup as an ite chain over the extracted (key,value) pairs
+        e = z3.IntVal(-1)
+        for kk, vv in reversed(tab): e = z3.If(keyexpr == enc(kk), z3.IntVal(enc(vv)), e)
+        return e
+    def name_clause(title, tab, other, kexpr, vexpr, clause):
+        # all failing entries are enumerated by blocking each counterexample index in turn (bounded by the table size)
+        base = [i >= 0, i < len(tab)]; goal = [lookup(vexpr, other) != kexpr]
+        st_, mdl = smt.prove(ck, title, base, goal, TO, probe=base + [free != kexpr])
+        blocked = []
+        while st_ == 'sat' and len(blocked) < len(tab):
+            idx = int(mdl['i']); k_, v_ = tab[idx]; back = dict(other).get(v_)
+            elem_violation(ck, clause, k_.decode(), '%s -> %s -> %s' % (k_.decode(), v_.decode(), back.decode() if back is not None else '<no entry>'), {'key': k_.decode(), 'value': v_.decode()})
+            blocked.append(i != idx)
+            st_, _, mdl = smt.check(base + goal + blocked, TO)
+    name_clause('elements: getEleShort(getEleFull(s)) == s for every symbol s with a full name (%d entries)' % len(full), full, short, table(i, [enc(k_) for k_, _ in full]), table(i, [enc(v_) for _, v_ in full]), 'symbol->full name->symbol')
+    name_clause('elements: getEleFull(getEleShort(name)) == name for every full name (%d entries)' % len(short), short, full, table(i, [enc(k_) for k_, _ in short]), table(i, [enc(v_) for _, v_ in short]), 'full name->symbol->full name')
+    fk = table(i, [enc(k_) for k_, _ in full])
+    symtab = [(s_.encode(), s_.encode()) for s_ in sb]
+    smt.prove(ck, 'elements: every symbol with a full name has an atomic number and vice versa', [i >= 0, i < max(len(full), len(sb))],
+              [z3.Or(z3.And(i < len(full), lookup(fk, symtab) == -1), z3.And(i < len(sb), lookup(table(i, [enc(x.encode()) for x in sb]), full) == -1))], TO, probe=[free != fk, i >= 0, i < len(full)])
+    ck.bounds.update({'element symbols': 'every string of at most 2 bytes (both bytes symbolic); atomic numbers %d..%d symbolic' % (ZLO, ZHI), 'element mass tolerance': '5e-4 relative against IUPAC abridged standard atomic weights (covers the revisions between editions, e.g. Li 6.941/6.94, S 32.066/32.06)'})
+    ck.assumptions += ['element reference data: periodic-table symbols and IUPAC abridged standard atomic weights embedded in props/C20.py; van der Waals radii, covalent radii and polarisabilities have no independent reference here and are outside the claim',
+                       'symbols longer than 2 characters are outside the symbolic key space (the tables hold none)']
+    ck.sample({'elements': len(sb), 'lookup paths': {'by number': len(rA), 'by symbol': len(rB)}})
 
 def note_violation(ck, ty, names, mdl, clause, kind):
     ia = int(mdl.get('a', 0)); ib = int(mdl.get('b', 0))
@@ -222,7 +405,9 @@ def replay_convert(ty, clause, ia, ib, ic, names):
 
 def do_replay(path):
     meta = json.load(open(os.path.join(path, 'input.json')))
-    if meta.get('kind') == 'convert':
+    if meta.get('kind') == 'element':
+        ok = replay_element(meta)
+    elif meta.get('kind') == 'convert':
         names = parse_enums()[meta['dimension']]
         ok = replay_convert(meta['dimension'], meta['clause'], meta['a'], meta['b'], meta['c'], names)
     else:
